@@ -8,7 +8,7 @@
 //        alphabet: full | noabsent (RemoveAbsent edges only in the random walks and the battery)
 //        reuse: 0 = every added element gets a new identity, 1 = an Add re-uses the identity of the
 //               element most recently removed at that point (re-insertion of a removed element)
-//        i/n: only the histories whose first step is the i-th (mod n) edge of the initial state
+//        i/n: shard i of n of the exhaustive walk (histories dealt out by their first two steps)
 //   nn scenario <graph> <scenario.json>      re-run one reported scenario, observing every step
 //   nn record <out> <structure> <params> <nexec> <nops>   random histories with observations
 //
@@ -721,8 +721,8 @@ static void loadCtx(Ctx &ctx, const vt::Graph &g)
         }
 }
 
-// vt::walkAllPaths restricted to the histories whose first step is the i-th, (i+n)-th, ... edge of
-// the initial state, so that one deep enumeration can be spread over several processes
+// vt::walkAllPaths spread over several processes: the histories are dealt out by their first two
+// steps (the j-th two-step prefix goes to shard j mod n; the one-step histories go to shard 0)
 template <class D, class Make, class Pred>
 static void walkAllPathsShard(const vt::Graph &g, vt::Report &rep, Make make, int depth, Pred use, int shard, int nshards)
 {
@@ -732,18 +732,19 @@ static void walkAllPathsShard(const vt::Graph &g, vt::Report &rep, Make make, in
         return;
     }
     std::vector<int> path;
+    long j = 0;
     std::function<void(int)> rec = [&](int s) {
         if ((int)path.size() == depth)
             return;
-        int j = 0;
         for (int e : g.out[s])
         {
             if (!use(g.edges[e]))
                 continue;
-            if (path.empty() && (j++ % nshards) != shard)
+            if (path.size() == 1 && (j++ % nshards) != shard)
                 continue;
             path.push_back(e);
-            vt::runScenario<D>(g, path, path.size() - 1, rep, make);
+            if (path.size() > 1 || shard == 0)
+                vt::runScenario<D>(g, path, path.size() - 1, rep, make);
             rec(g.edges[e].d);
             path.pop_back();
         }
